@@ -30,9 +30,12 @@ impl<'a> CowStr<'a> {
         ensures s@ == self@,
     { self.inner.as_ref() }
 
+}
+
+impl<'a> Clone for CowStr<'a> {
     #[verifier::external_body]
-    pub fn clone(&self) -> (c: CowStr<'a>)
-        ensures c@ == self@, c.byte_len() == self.byte_len(), c.is_borrowed() == self.is_borrowed(),
+    fn clone(&self) -> (c: CowStr<'a>)
+        ensures c == *self,
     { CowStr { inner: self.inner.clone() } }
 }
 
